@@ -164,6 +164,23 @@ static int decode_header(const tar_header_t *hdr, unsigned int set_by_pax,
 	return 0;
 }
 
+/* The data regions of a sparse file are stored back to back in the record,
+   so together they must not be larger than the record itself. */
+static bool is_sparse_map_sane(const tar_header_decoded_t *hdr)
+{
+	const sparse_map_t *it;
+	sqfs_u64 total = 0;
+
+	for (it = hdr->sparse; it != NULL; it = it->next) {
+		if (it->count > (hdr->record_size - total))
+			return false;
+
+		total += it->count;
+	}
+
+	return true;
+}
+
 int read_header(sqfs_istream_t *fp, tar_header_decoded_t *out)
 {
 	unsigned int set_by_pax = 0;
@@ -272,8 +289,11 @@ int read_header(sqfs_istream_t *fp, tar_header_decoded_t *out)
 			goto fail;
 	}
 
-	if (out->sparse == NULL)
+	if (out->sparse == NULL) {
 		out->actual_size = out->record_size;
+	} else if (!is_sparse_map_sane(out)) {
+		goto fail_sparse;
+	}
 
 	return 0;
 out_eof:
@@ -290,6 +310,9 @@ fail_path_len:
 fail_pax_len:
 	fprintf(stderr, "rejecting PAX header with size %lu\n",
 		(unsigned long)pax_size);
+	goto fail;
+fail_sparse:
+	fputs("sparse file map does not fit the size of the record!\n", stderr);
 	goto fail;
 fail_magic:
 	fputs("input is not a ustar tar archive!\n", stderr);
